@@ -38,7 +38,7 @@ pub fn alphabet(cs: u32) -> Vec<Op> {
     // 100 units: 8 long-name slots + 1 -> fills a 16-slot root quickly
     a.push(Op::CreateFile { base: r, path: "m".repeat(100), keep: None });
     a.push(Op::CreateDir { base: r, path: "k".repeat(100), keep: None });
-    for p in ["d", "D", "d/e", "a", "x:y", "nodir/e", "long-name-1.txt/z"] {
+    for p in ["d", "D", "d/e", "e", "a", "x:y", "nodir/e", "long-name-1.txt/z"] {
         a.push(Op::CreateDir { base: r, path: s(p), keep: None });
     }
     for p in ["a", "A", "LONG-N~1.TXT", "long-n~2.txt", "d/a", "d", "zz"] {
@@ -65,6 +65,8 @@ pub fn alphabet(cs: u32) -> Vec<Op> {
         ("a", "nodir/c"),
         ("d/a", "a"),
         ("d/e", "e"),
+        ("e", "d/e"),
+        ("d", "e/d"),
         ("b.txt", "d/e/b.txt"),
     ] {
         a.push(Op::Rename { base: r, src: s(p), dst_base: r, dst: s(q) });
